@@ -109,7 +109,11 @@ def eviction_workload(args):
     out = dict(prog=prog, problems=[], unlinks=[], runs=0, journals_seen=[])
     try:
         db = C.fresh(wd)
-        obs, raw, rc = run_fjv(prog, dbdir=db, env_extra=C.shim_env(db, wd), timeout=300)
+        obs, raw, rc = run_fjv(prog, dbdir=db, env_extra=C.shim_env(db, wd), timeout=600)
+        if rc == -99 or any(v == "err timeout" for v in obs.values()):
+            out["incomplete"] = True          # the machine is too slow right now: nothing can be judged from a cut-off run
+            out["sample"] = dict(incomplete=True)
+            return out
         evs = C.read_log(wd)
         un = [e for e in evs if e["call"] in ("unlink", "unlinkat") and e["path"].endswith(".jnl")]
         out["unlinks"] = [e["path"] for e in un]
@@ -132,7 +136,10 @@ def eviction_workload(args):
         points = [(e["n"] + 1, "after") for e in un] + ([(e["n"], "before") for e in un] if tier != "quick" else [])
         for n, where in points:
             db = C.fresh(wd)
-            o, raw, rc = run_fjv(prog, dbdir=db, env_extra=C.shim_env(db, wd, CRASH_AT=n), timeout=300)
+            o, raw, rc = run_fjv(prog, dbdir=db, env_extra=C.shim_env(db, wd, CRASH_AT=n), timeout=600)
+            if rc == -99 or any(v == "err timeout" for v in o.values()):
+                out["incomplete"] = True
+                continue
             last = C.acked_ops(prog, o)
             e2, b2 = restrict(expect, big, prog, last)
             vp, want, off = verify_prog(names, e2, b2)
@@ -227,7 +234,9 @@ def mgr_conformance(args):
     wd = workdir()
     try:
         db = C.fresh(wd)
-        o, raw, rc = run_fjv(prog, dbdir=db, env_extra=C.shim_env(db, wd), timeout=600)
+        o, raw, rc = run_fjv(prog, dbdir=db, env_extra=C.shim_env(db, wd), timeout=900)
+        if rc == -99 or any(v == "err timeout" for v in o.values()):
+            return dict(prog=prog, model_ops=M, diffs=[], seals=0, steps=0, counts=[], incomplete=True)
         p = subprocess.run([FJM, "jmgr"], input="\n".join(M) + "\n", env=ENV, stdout=subprocess.PIPE, stderr=subprocess.PIPE, text=True)
         mo = [tuple(map(int, l.split())) for l in p.stdout.splitlines()]
         un = len([e for e in C.read_log(wd) if e["call"] in ("unlink", "unlinkat") and e["path"].endswith(".jnl") and e["ret"] == "0"])
@@ -250,9 +259,6 @@ def run(rep, tier, seed, build):
     from common import proof_audit, TRUSTED_BASE
     obl, dis, pproblems = proof_audit("props/C10.v", THEOREMS, build["coq"])
     mc = pmap(mgr_conformance, [(i, seed) for i in range(4 if tier == "quick" else 40)], workers=4)
-    for x in [x for x in mc if x["diffs"]][:2]:
-        rep.violation("# C10: the journal manager differs from JournalMgr.v: %s\n# model operations: %s\n%s"
-                      % ("; ".join(x["diffs"][:3]), " | ".join(collapse(x["model_ops"])), x["prog"]))
     n = 16 if tier == "quick" else 120
     results = pmap(eviction_workload, [(i, seed, tier) for i in range(n)], workers=6)
     bad = [r_ for r_ in results if r_["problems"]]
@@ -266,12 +272,26 @@ def run(rep, tier, seed, build):
                              "through the shim: order must be oldest first, a crash right after the unlink must recover every acknowledged "
                              "write, journal_count returns to 1 after everything is flushed; non-trivial = at least one journal unlinked",
                         samples=[r_["sample"] for r_ in results if r_.get("sample")][:3], workloads=n,
-                        journal_unlinks=sum(len(r_["unlinks"]) for r_ in results), disagreements_checked=len(bad) + len([x for x in mc if x["diffs"]]),
+                        journal_unlinks=sum(len(r_["unlinks"]) for r_ in results), incomplete_runs=sum(1 for r_ in results if r_.get("incomplete")) + sum(1 for x in mc if x.get("incomplete")), disagreements_checked=len(bad) + len([x for x in mc if x["diffs"]]),
                         model_conformance_workloads=len(mc), model_conformance_steps=sum(x["steps"] for x in mc),
                         model_conformance_seals=sum(x["seals"] for x in mc), model_conformance_sample=mc[0]["counts"] if mc else [],
                         obligations=obl, discharged=dis if not pproblems else min(dis, obl - 1),
                         checker_cmd="cd coq && make props/C10.vo (coqc 8.16.1) + Print Assumptions audit", trusted_base=TRUSTED_BASE,
                         programs=n + len(mc), traces_validated_against_impl=len(mc), proof_problems=pproblems)
+    mcbad = [x for x in mc if x["diffs"]]
+    if mcbad and not rep.violations:
+        # journal counts differ from JournalMgr.v but no crash point lost anything and journals were unlinked in order:
+        # a file kept longer / sealed at another moment is not by itself a violation
+        x = mcbad[0]
+        early = False
+        for d_ in x["diffs"]:
+            m_ = re.search(r"journal_count (\d+), model (\d+)", d_)
+            if m_ and int(m_.group(1)) < int(m_.group(2)):
+                early = True
+        rep.violation("# C10: correspondence JournalMgr.v <-> journal manager no longer checks: %s\n# (a journal file %s than the model says; the crash-after-unlink "
+                      "enumeration over %d workloads found no lost write)\n# model operations: %s\n%s"
+                      % ("; ".join(x["diffs"][:3]), "is gone earlier" if early else "lives longer", n, " | ".join(collapse(x["model_ops"])), x["prog"]),
+                      suffix="no-failing-input-found")
     if pproblems and not rep.violations:
         rep.violation("# C10: proof obligations no longer check\n" + "\n".join(pproblems) + "\n", suffix="no-failing-input-found")
     rep.assumptions = ["process-crash model at the unlink points (kill)",
